@@ -15,5 +15,11 @@ TFill == /\ Is("Fill")
          /\ (first >= 0 => Ev.keys >= first)
          /\ first' = IF first < 0 THEN Ev.keys ELSE first
 TEmptied == Is("Emptied") /\ Ev.keys = 0 /\ Ev.trigs = 0 /\ UNCHANGED first
-TraceSpec == (l = 1 /\ first = -1) /\ [][TReset \/ TFill \/ TEmptied]_<<l, first>>
+\* a long stream of distinct keys through a cache of <limit> entries, no clear(): always exactly <limit> live entries
+\* (the last <limit> stored keys), with exactly their triggers - evicted entries leave nothing behind that eats memory
+TStream == /\ Is("Stream")
+           /\ (Ev.i >= Ev.limit => (Ev.keys = Ev.limit /\ Ev.hits = Ev.limit /\ Ev.trigs = Ev.want_trigs
+                                  /\ Ev.minkeys = Ev.limit /\ Ev.badtrigs = 0))   \* ... after EVERY store of the block
+           /\ UNCHANGED first
+TraceSpec == (l = 1 /\ first = -1) /\ [][TReset \/ TFill \/ TEmptied \/ TStream]_<<l, first>>
 =============================================================================
